@@ -33,9 +33,15 @@ def gen_config(rng, adversarial=None):
         for st in steps:
             if not st[1]:
                 st[3] = 0      # the run must reach `end` while the trailing parallel steps are still running
-    skip = [s[0] for s in steps if rng.random() < 0.12 and not (adversarial == "trailing-parallel" and s in steps[-2:])]
+    if adversarial == "queue-full":
+        # more consecutive parallel steps than ncpu (3), one of them short: when the queue is full the wait
+        # returns with two jobs still running, then a synchronous step behind the barrier
+        k = rng.randint(4, 6)
+        steps = [["q%d" % (i + 1), True, 60 if i == 0 else rng.choice([500, 700, 900]) if i < 3 else rng.choice([100, 250]), 0] for i in range(k)]
+        steps.append(["after", False, 0, 0])
+    skip = [s[0] for s in steps if rng.random() < 0.12 and not (adversarial in ("trailing-parallel", "queue-full") and (adversarial == "queue-full" or s in steps[-2:]))]
     cmdline_skip = [s for s in skip if rng.random() < 0.4]
-    ncpu = rng.choice([1, 1, 2, 2, 3])
+    ncpu = rng.choice([1, 1, 2, 2, 3]) if adversarial != "queue-full" else 3
     return dict(steps=[tuple(s) for s in steps], skip=skip, cmdline_skip=cmdline_skip, ncpu=ncpu)
 
 
